@@ -161,7 +161,7 @@ fn c15_asn_hex_part2() {
     asn_hex_part(2, [1, 0, 0])
 }
 
-// verif: prop=C15 tier=thorough cap=3000 mem=24 bound="every AS number in the BGP range (0 .. 2^32-1): decimal form" fns="Asn::fmt (Display),Asn::from_str" stubs="none"
+// verif: prop=C15 tier=thorough cap=3000 mem=30 bound="every AS number in the BGP range (0 .. 2^32-1): decimal form" fns="Asn::fmt (Display),Asn::from_str" stubs="none"
 #[kani::proof]
 #[kani::unwind(22)]
 fn c15_asn_dec_display_parse() {
